@@ -6,6 +6,17 @@ pub fn read<'a>(src: &'a [u8], length: usize, index: &usize) -> &'a [u8] {
     &src[*index..*index + length]
 }
 
+pub fn try_read_and_advance<'a>(
+    src: &'a [u8],
+    length: usize,
+    index: &mut usize,
+) -> Option<&'a [u8]> {
+    let end = index.checked_add(length)?;
+    let result = src.get(*index..end)?;
+    *index = end;
+    Some(result)
+}
+
 pub fn read_and_advance<'a>(src: &'a [u8], length: usize, index: &mut usize) -> &'a [u8] {
     let result = read(src, length, index);
     *index += length;
